@@ -53,6 +53,18 @@ CHECKS = {
         note="ASCII + placeholder alphabet (TLC strings); no token-level lexer model yet: the invariants are evaluated on observed tokens",
         ref="DESIGN.md section 6 C17",
     ),
+    "C03": dict(
+        engine="LiquidAsync",
+        technique="programs enumerated by TLC rendered sync and async (hand-stepped coroutines, pausing loader, async and ordinal drops); "
+                  "all interleavings of concurrent tasks enumerated by TLC (LiquidAsync.tla) replayed on real coroutines",
+        text="every behaviour of the sites/scopes/flow/loops/exprs/lambda/undef/bool focuses: render() and render_async() give the same text "
+             "or the same error class at the same template and index; analyze/analyze_async agree; ordinal drops make evaluation counts "
+             "visible; partials live in sub-directories behind a loader whose async path suspends; every interleaving of two concurrent "
+             "renders (6 task templates using include/render/extends/macros/counters/cycles over a shared Environment, with and without a "
+             "shared caching loader) yields each task's solo output",
+        note="K=2 tasks; await points are the harness doubles'; file-system loaders' executor path is covered by C13/C14 with asyncio.run",
+        ref="DESIGN.md section 6 C03",
+    ),
     "C07": dict(
         engine="LiquidSem",
         technique="TLC invariant RenderIsolated (two-way non-interference) on the reference + S->C replay of the scopes and lambda focuses "
